@@ -264,6 +264,11 @@ def run_case(case):
             _numpy_cross(case, spec['bkg'][0], v, rbkg[j, i], mech, 1e-12 if dt == 'float64' else 1e-6)
             _numpy_cross(case, spec['rms'][0], v, rrms[j, i], mech, 1e-12 if dt == 'float64' else 1e-5)
 
+    inc_any = s_in | s_tie | s_near
+    if inc_any.any() and not np.isfinite(rrms[inc_any]).any():
+        # the chosen RMS estimator (e.g. a biweight scale with a user-fixed location M far from the data) returns
+        # NaN for every box that can be included: there is no finite RMS statistic to build a map from
+        case.skip('rms_estimator_nan_on_every_included_box')
     # ---------------- the real object, unfiltered ------------------------
     try:
         b1 = scenes.construct(spec, fsize=1, thr=None)
